@@ -95,7 +95,7 @@ Theorem C08_keyboard : forall L S (f : L -> KeyCode -> Modifiers -> HandleContro
   exists k0, Keyboard_new f adv s0 l0 hc0 = Ret k0 /\ exists k', kb_run f adv k0 ops = Ret k'.
 Proof.
   intros L S f adv Hf Hadv.
-  destruct Props.C08.ps2_reach as (sts & Hinit & Hstep).
+  destruct (Props.C08.ps2_reach (Ps2Decoder_mk 0 0) eq_refl) as (sts & Hinit & Hstep).
   refine (C08_keyboard_gen f adv Hf Hadv sts Hinit _).
   intros p op Hp. exact (Hstep p op Hp (all_ops_complete op)).
 Qed.
